@@ -624,6 +624,7 @@ impl Director {
             let ready = match template {
                 7 | 8 => run.w.u.leader(self.round + 1) == node && run.w.u.leader(self.round) != node,
                 9 => self.tip.round + 1 == self.round && run.w.u.leader(self.round) != node,
+                12 => self.tip.round + 1 == self.round && run.w.u.leader(self.round + 2) == node,
                 _ => true,
             };
             if ready || run.diverged {
@@ -925,6 +926,67 @@ impl Director {
                 self.give(run, Stim::Msg(ConsensusMessage::Propose(spliced))).await;
                 self.give(run, Stim::Timer).await;
             }
+            12 => {
+                // (C01, second attack) A Byzantine leader X of round R+1 holds the only QC for B_R and
+                // shows its block B_{R+1} to the node V alone (V leads R+2), together with its own vote
+                // for B_{R+1} SEVERAL times.  If V counts a signer twice it "certifies" B_{R+1} with a
+                // sub-quorum, proposes on top and commits B_R — while everybody else, who never saw a
+                // QC for B_R, times out and builds a branch on B_{R-1} that gets committed as well.
+                let r0 = round;
+                let x = run.w.u.leader(r0 + 1);
+                if run.w.u.leader(r0 + 2) != node || x == node || run.w.u.leader(r0) == node || (r0 + 3..=r0 + 5).any(|k| run.w.u.leader(k) == node) {
+                    return;
+                }
+                if self.tip.round + 1 != r0 {
+                    return;
+                }
+                let oth = others(&run.w.u, node);
+                let base = self.tip.clone();
+                // round R0: everybody sees and votes B_a; only X learns the QC
+                let b_a = run.w.u.mk_block(run.w.u.leader(r0), r0, base.clone(), None, vec![]);
+                self.blocks.insert(b_a.digest().0, b_a.clone());
+                self.give(run, Stim::Msg(ConsensusMessage::Propose(b_a.clone()))).await;
+                let signers = match quorum_subset(&run.w.u, &mut self.rng, &oth) {
+                    Some(s) => s,
+                    None => return,
+                };
+                let qc_a = run.w.u.mk_qc(b_a.digest(), r0, &signers);
+                // round R0+1: X's block, shown to V only, preceded by X's vote as often as needed to
+                // reach the threshold together with V's own vote (never with distinct signers)
+                let b_x = run.w.u.mk_block(x, r0 + 1, qc_a.clone(), None, vec![]);
+                self.blocks.insert(b_x.digest().0, b_x.clone());
+                let (sx, sv, q) = (run.w.u.stake(x), run.w.u.stake(node), run.w.u.quorum());
+                if sx == 0 || sx + sv >= q {
+                    return;
+                }
+                let copies = (q - sv + sx - 1) / sx;
+                for _ in 0..copies {
+                    let v = run.w.u.mk_vote(b_x.digest(), r0 + 1, x);
+                    self.give(run, Stim::Msg(ConsensusMessage::Vote(v))).await;
+                }
+                self.give(run, Stim::Msg(ConsensusMessage::Propose(b_x.clone()))).await;
+                // everybody else never saw B_x nor a QC for B_a: rounds R0+1 and R0+2 time out with the
+                // old high QC, and the leaders of R0+3.. build on `base`
+                let entries: Vec<(u64, u64)> = signers.iter().map(|j| (*j, base.round)).collect();
+                let tc2 = run.w.u.mk_tc(r0 + 2, &entries);
+                let c1 = run.w.u.mk_block(run.w.u.leader(r0 + 3), r0 + 3, base.clone(), Some(tc2.clone()), vec![]);
+                self.blocks.insert(c1.digest().0, c1.clone());
+                self.give(run, Stim::Msg(ConsensusMessage::Propose(c1.clone()))).await;
+                let qc1 = run.w.u.mk_qc(c1.digest(), r0 + 3, &signers);
+                let c2 = run.w.u.mk_block(run.w.u.leader(r0 + 4), r0 + 4, qc1, None, vec![]);
+                self.blocks.insert(c2.digest().0, c2.clone());
+                self.give(run, Stim::Msg(ConsensusMessage::Propose(c2.clone()))).await;
+                let qc2 = run.w.u.mk_qc(c2.digest(), r0 + 4, &signers);
+                let c3 = run.w.u.mk_block(run.w.u.leader(r0 + 5), r0 + 5, qc2.clone(), None, vec![]);
+                self.blocks.insert(c3.digest().0, c3.clone());
+                self.give(run, Stim::Msg(ConsensusMessage::Propose(c3.clone()))).await;
+                let qc3 = run.w.u.mk_qc(c3.digest(), r0 + 5, &signers);
+                self.qcs.push(qc2);
+                self.qcs.push(qc3.clone());
+                self.tip = qc3;
+                self.tc = None;
+                self.round = r0 + 6;
+            }
             10 => {
                 // (C03 rule 2, second clause) a view change whose TC reports the tip, and a leader that
                 // proposes on top of an OLDER QC with that TC: the block's QC is below the highest QC
@@ -1118,7 +1180,7 @@ pub fn run_scenario(seed: u64, steps: usize, rep: &mut Report, use_model: bool) 
             batches_known: vec![],
         };
         d.absorb(&mut run);
-        let template = d.rng.gen_range(0, 12u32);
+        let template = d.rng.gen_range(0, 13u32);
         let template_at = d.rng.gen_range(0, steps.max(1) / 2 + 1);
         for step in 0..steps {
             if run.diverged {
